@@ -29,6 +29,10 @@ func TestVerif_C10(t *testing.T) {
 		r.Count("watch_ops_overlapping_termination", int64(obs.OpsOverlap))
 		r.Count("terminated_received", int64(obs.Terminated))
 		r.Count("noise_delays_injected", obs.Delays)
+		if obs.Skipped != "" {
+			r.Count("cases_skipped_watchee_unregistered_after_restart", 1)
+			r.Note("skipped: %s [%s seed=%d]", obs.Skipped, k.String(), seed)
+		}
 		if obs.Watchdog != "" {
 			r.Inconclusive("%s [%s seed=%d]", obs.Watchdog, k.String(), seed)
 		}
